@@ -17,7 +17,6 @@ import itertools
 import json
 import os
 
-import dataiter as di
 from dataiter import GeoJSON
 from mc import values as V
 from mc.ref import c18_geojson_ref as R
@@ -146,10 +145,6 @@ def base_collections(tier):
 
 # ---------------------------------------------------------------------------
 # shards
-
-def chunks(n, k):
-    return [list(range(i, n, k)) for i in range(k)]
-
 
 def shards(tier):
     """Size-ascending: number of features first, then alphabet size."""
